@@ -84,6 +84,11 @@ def determinism_threads(n, workers_a, workers_b):
         rs = P.derive_seed(987654321, "C17-threads", "quick", i)
         progs.append(T.gen(random.Random(rs), rs))
     progs += [p["program"] for p in T.line_sweep_programs()[:4]]
+    from . import threads18 as T18
+    for i in range(n // 2):  # C18: caller threads on shared operands
+        rs = P.derive_seed(987654321, "C18-threads", "quick", i)
+        progs.append(T18.gen(random.Random(rs), rs))
+    progs += [p["program"] for p in T18.observer_programs("quick")[::37]] + [p["program"] for p in T18.line_sweep_programs("quick")[::25]]
 
     def digests(workers, hs):
         out = {}
@@ -97,7 +102,7 @@ def determinism_threads(n, workers_a, workers_b):
     st = {}
     for v in a.values():
         st[v[0]] = st.get(v[0], 0) + 1
-    print("determinism C17 caller threads: %d threaded histories x 2 (workers %d/%d, PYTHONHASHSEED 1/77): %d mismatches; "
+    print("determinism caller threads (C17, C18): %d threaded histories x 2 (workers %d/%d, PYTHONHASHSEED 1/77): %d mismatches; "
           "statuses %s; %.0fs" % (len(progs), workers_a, workers_b, len(mism), st, time.time() - t))
     for i in mism[:5]:
         print("  MISMATCH threads program #%d: %s vs %s" % (i, a.get(i), b.get(i)))
@@ -180,7 +185,8 @@ REACH = {
             "raise_at_first", "raise_at_middle", "repeat_after_fault", "reenter_same_key", "annotate_then_check_original",
             "to_dtype_move", "flatten_leaf_substituted", "optional_module_imported", "default_Auto_paths",
             "alloc_fail_in_constructor", "crash_points_enumerated", "alg_objects_made", "user_fn_callbacks",
-            "sweep_histories", "observer_snapshots", "clock_negative_jump", "address_reused_after_drop"],
+            "sweep_histories", "observer_snapshots", "clock_negative_jump", "address_reused_after_drop",
+            "thread_runs", "thread_switches", "thread_line_sweeps", "observer_line_events"],
 }
 FAULTS = ["raise", "alloc_fail", "nonfinite", "clock", "pbar_fail"]
 
